@@ -86,7 +86,7 @@ static void on_unit(bool isA, bool raw, const char *text, size_t len, bool lead_
                 CNT("result_codes");
                 return;
         }
-        CNT(isA ? "cmd_data_units" : "event_units");
+        if (isA) CNT("cmd_data_units"); else CNT("event_units");      /* (the macro caches the slot of its name: one call site per name) */
         if (!isA && text[0] != '~' && ev_cur_ci >= 0) {
                 /* units of the event producer must come in acceptance order: an automatically formatted event text starts with the name of the oldest accepted event's command */
                 const char *nm = W.cmd[ev_cur_ci]->name; size_t nl = strlen(nm);
